@@ -49,6 +49,9 @@ func (crashEngine) Generate(prop string, r *simrt.RNG, tier string, run int) *si
 	for _, id := range order {
 		sc.Ops = append(sc.Ops, simrt.Op{K: "dlv", I: []int64{int64(id), int64(r.Intn(3)), int64(r.Intn(3))}})
 	}
+	if r.Chance(1, 6) {
+		sc.Knobs["bigblock"] = int64(ids[r.Range(trunk-2, len(ids)-1)])
+	}
 	return sc
 }
 
@@ -63,6 +66,11 @@ func (crashEngine) run(ctx *simrt.Ctx) *simrt.Violation {
 	uid := fmt.Sprintf("%s-%d-%d", sc.Property, sc.Run, ctx.Seq())
 	recseq := sc.Knob("recordseq", 0) == 1
 	w := NewWorld(ctx, "fac-"+uid, simnode.Opts{})
+	if big := int(sc.Knob("bigblock", 0)); big > 0 {
+		// one block whose transaction index alone is larger than a megabyte: any
+		// size-triggered intermediate flush of the connect batch becomes a crash point
+		w.Ballast, w.BallastCount, w.BallastIDs = 95000, 13, map[int]bool{big: true}
+	}
 	defer w.Fac.Close()
 	defer w.Fac.Disk.Remove()
 	sut := simnode.New(simnode.Opts{ID: "sut-" + uid, StubMempool: true, EditToml: seqToml(recseq)})
@@ -100,6 +108,9 @@ func (crashEngine) run(ctx *simrt.Ctx) *simrt.Violation {
 				continue
 			}
 			before := lastHash(sut)
+			if b.Block.Size() > 1<<20 {
+				ctx.Probe("block_over_1MiB_delivered")
+			}
 			Deliver(sut, b.Block, int(op.Int(1)), "peerA")
 			delivered[b.ID] = true
 			tip := lastHash(sut)
